@@ -77,11 +77,13 @@ def renderW : WRes → String
   | .n k => toString k
   | .notAllowed => "b"
   | .overLength => "c"
+  | .shortWrite => "e"
 
 def render (isHead : Bool) (s : St) (lens : List Nat) : String :=
   let fs := "/".intercalate (renderFrames s.out lens)
   let ws := ",".intercalate (s.wres.map renderW)
-  (if fs.isEmpty then "-" else fs) ++ "|" ++ (if ws.isEmpty || isHead then "-" else ws)
+  let _ := isHead
+  (if fs.isEmpty then "-" else fs) ++ "|" ++ (if ws.isEmpty then "-" else ws)
 
 def envDrv : Env := { sniff := fun _ => [64], now := [64] }
 
@@ -245,7 +247,7 @@ def spec (isHead : Bool) (acts : List Act) (impl : String) : String :=
       let wr := if wstr == "-" then [] else wstr.splitOn ","
       let accepted := if isHead then [] else
         (writes.zip wr).foldl (fun acc (p, r) => if r.toNat?.isSome then acc ++ p else acc) []
-      if !isHead && wr.length != writes.length then "FAIL:write-results" else
+      if wr.length != writes.length then "FAIL:write-results" else
       if (isHead || !bodyAllowed status) && !body.isEmpty then "FAIL:body-not-allowed" else
       if body != accepted then "FAIL:body" else
       let _ := hes
